@@ -191,7 +191,7 @@ fn mix(x: u64) -> u64 {
 /// The i-th position of the marathon with the given salt: two kings, 0..8 pawns a side on ranks
 /// 2..7 (the point is the variety of pawn structures), 0..3 other men.  Valid by construction
 /// or repaired; None if it cannot be made valid.
-fn marathon_position(salt: u64, i: u64) -> Option<Pos> {
+pub fn marathon_position(salt: u64, i: u64) -> Option<Pos> {
     let mut r = mix(salt ^ i.wrapping_mul(0x2545f4914f6cdd1d));
     let mut next = |n: u64| {
         r = mix(r);
